@@ -77,11 +77,28 @@ def lean_theorems(module):
     return out
 
 
-def lean_banned_hits():
-    hits = []
-    for path in glob.glob(os.path.join(LEAN, "**", "*.lean"), recursive=True):
-        if "/.lake/" in path:
+def lean_closure(modules):
+    """the given modules plus every Hostd.* / Drivers.* module they import, transitively"""
+    seen, todo = set(), list(modules)
+    while todo:
+        m = todo.pop()
+        if m in seen:
             continue
+        path = os.path.join(LEAN, m.replace(".", "/") + ".lean")
+        if not os.path.exists(path):
+            continue
+        seen.add(m)
+        for line in open(path):
+            mm = re.match(r"\s*import\s+((?:Hostd|Drivers)\.\S+)", line)
+            if mm:
+                todo.append(mm.group(1))
+    return sorted(seen)
+
+
+def lean_banned_hits(modules):
+    hits = []
+    for m in lean_closure(modules):
+        path = os.path.join(LEAN, m.replace(".", "/") + ".lean")
         src = strip_comments(open(path).read())
         for i, line in enumerate(src.split("\n"), 1):
             if BANNED.search(line):
@@ -138,7 +155,7 @@ def build_lean(prop):
             bad.append(f"axioms of {t} not reported")
         elif set(ax[t]) - ALLOWED_AXIOMS:
             bad.append(f"{t} depends on {sorted(set(ax[t]) - ALLOWED_AXIOMS)}")
-    hits = lean_banned_hits()
+    hits = lean_banned_hits(cfg["props"] + ["Drivers." + cfg["driver"][4:].capitalize()])
     if hits:
         bad += ["banned construct: " + h for h in hits[:10]]
     if rc != 0 and not ax:
